@@ -182,7 +182,7 @@ def run(rep, tier, seed):
                           "what": "path", "case": g})
     # the other micro-syntaxes
     fam_cases = {}
-    for fam in ("number", "points", "transform", "ref", "vocab"):
+    for fam in ("number", "points", "transform", "ref", "use", "vocab"):
         cfg = vlib.cfg_text(constants={"Family": fam, "Tier": tier}, invariants=["Derivable", "Export"])
         rr = vlib.run_tlc("MC_SvgSyntax", cfg, "c04-" + fam, workers=4, timeout=600, keep_stdout=True)
         if not rr.ok:
@@ -234,6 +234,22 @@ def run(rep, tier, seed):
         root = '<svg xmlns:xlink="http://www.w3.org/1999/xlink">' if c["form"] == "use-xlink" else "<svg>"
         body = (TGT[c["form"]] + REF[c["form"]]) if c["target"] == "before" else (REF[c["form"]] + TGT[c["form"]])
         cases.append({"k": f"c04r-{j}", "xml": root + body + "</svg>", "what": "ref:" + c["form"], "case": c})
+    UTGT = {"rect0": '<rect id="t" x="0" y="0" width="3" height="3"/>', "rect-off": '<rect id="t" x="3" y="4" width="3" height="2"/>',
+            "circle0": '<circle id="t" r="5"/>', "circle-off": '<circle id="t" cx="5" cy="6" r="5"/>',
+            "ellipse-off": '<ellipse id="t" cx="4" cy="2" rx="4" ry="2"/>', "line": '<line id="t" x1="1" y1="2" x2="5" y2="2"/>',
+            "g": '<g id="t"><rect x="1" y="1" width="2" height="2"/><circle cx="5" cy="5" r="1"/></g>',
+            "symbol": '<symbol id="t"><rect x="0" y="0" width="2" height="2"/></symbol>', "path": '<path id="t" d="M1 1 L5 1 L5 4 z"/>',
+            "text": '<text id="t" x="1" y="2">label</text>'}
+    UATTR = {"xy": ' x="30" y="7"', "x": ' x="30"', "y": ' y="7"', "none": "", "neg": ' x="-2.5" y="-40"'}
+    for j, c in enumerate(fam_cases["use"]):
+        href = "href" if c["form"] == "href" else "xlink:href"
+        root = '<svg xmlns:xlink="http://www.w3.org/1999/xlink">' if c["form"] == "xlink" else "<svg>"
+        use = f'<use id="s" {href}="#t"{UATTR[c["attrs"]]}/>'
+        tgt = UTGT[c["tkind"]]
+        if c["tkind"] == "symbol" and c["where"] != "defs":
+            tgt = tgt      # a symbol renders nothing wherever it stands
+        body = {"before": tgt + use, "after": use + tgt, "defs": f"<defs>{tgt}</defs>" + use}[c["where"]]
+        cases.append({"k": f"c04u-{j}", "xml": root + body + "</svg>", "what": "use:" + c["tkind"], "case": c})
     for j, c in enumerate(fam_cases["vocab"]):
         sn = VOCAB[c["snippet"] - 1]
         xml = {"svg": f"<svg>{sn}</svg>", "svg-g": f'<svg><g id="outer">{sn}</g></svg>', "fragment": sn}[c["wrap"]]
